@@ -61,6 +61,9 @@ def axes_choices(ndim, tuples=True):
     out = [None] + list(range(-ndim, ndim))
     if tuples and ndim >= 2:
         out += [t for r in (2, 3) if r <= ndim for t in itertools.combinations(range(ndim), r)]
+        # the same axis sets spelled with negative entries
+        out += [tuple(a - ndim if k % 2 else a for k, a in enumerate(t)) for t in itertools.combinations(range(ndim), 2)]
+        out += [tuple(a - ndim for a in t) for t in itertools.combinations(range(ndim), 2)]
     return out
 
 
@@ -208,7 +211,7 @@ def run_prod(ctx, rng, n, monitor):
     for (a, ax, kd, spell, oshape), model in zip(cases, answers):
         info = {"fn": "prod", "axis": list(ax) if isinstance(ax, tuple) else ax, "keepdims": kd, "spelling": spell}
         case = {"kind": "prod", "a": a, **info}
-        tags = ["fn:prod", f"spelling:{spell}"] + (["axis-tuple"] if isinstance(ax, tuple) else []) + (["keepdims"] if kd else [])
+        tags = ["fn:prod", f"spelling:{spell}"] + (["axis-tuple", "axis-tuple-keepdims" if kd else "axis-tuple-nokeepdims"] if isinstance(ax, tuple) else []) + (["keepdims"] if kd else [])
         p = gen.materialize(a, a["as"])
         ctx.evaluations += 1
         ctx.count("fn=prod")
@@ -280,6 +283,20 @@ def run_bilinear(ctx, rng, n, monitor):
                 continue
             pairs, oshape = mp
             impl = gen.choice(rng, [lambda x, y: numpoly.matmul(x, y), lambda x, y: numpy.matmul(x, y), lambda x, y: x @ y])
+        if rng.random() < .3:
+            # operands of different coefficient dtypes (narrower one first or second): the sum of products is formed in
+            # the promoted type
+            da, db = gen.choice(rng, [("int64", "float64"), ("float64", "int64"), ("bool", "int64"), ("int8", "float32"), ("uint8", "int16")])
+            for x, dt in ((a, da), (b, db)):
+                x["dtype"] = dt
+                for t in x["terms"]:
+                    t[1] = [(int(v != 0) if dt == "bool" else abs(v) % 5 if dt.startswith("uint") else v) if isinstance(v, int) else v for v in t[1]]
+            if da.startswith("float"):
+                for t in a["terms"]:
+                    t[1] = [[2 * v + 1, 2] if isinstance(v, int) else v for v in t[1]]
+            if db.startswith("float"):
+                for t in b["terms"]:
+                    t[1] = [[2 * v + 1, 2] if isinstance(v, int) else v for v in t[1]]
         cases.append((fn, a, b, impl, oshape))
         drv.append({"id": len(drv), "op": "bilinear", "opts": {"retain_coefficients": False, "retain_names": True},
                     "a": strip(a), "b": strip(b), "shape": oshape, "pairs": pairs})
